@@ -212,7 +212,7 @@ func VerifH_mestep() {
 		repAvail = verifBool("avail")
 		m.SetEndpointAvailability(repName, repAvail)
 	case 1:
-		list = vList("list")
+		list = vListN("list", verifCase("ln"))
 		serr = m.SetEndpoints(list)
 	case 2:
 		i := verifInt("timer")
@@ -310,7 +310,7 @@ func VerifH_mestep() {
 		case !repAvail && v0.status[e] == available && r == 0:
 			verifAssert(v1.status[e] == unavailable, "C14: endpoint reported unavailable without recovery timeout is not unavailable")
 		case !repAvail && v0.status[e] != available:
-			verifAssert(v1.status[e] == v0.status[e] && w.eps[e].futureChange == tm0 && w.eps[e].lastChange.UnixNano() <= now0, "C14: repeated unavailable report changed the recovery window")
+			verifAssert(v1.status[e] == v0.status[e] && w.eps[e].futureChange == tm0 && w.eps[e].lastChange.UnixNano() <= now0, "C13,C14: repeated unavailable report changed the recovery window (an endpoint known to be unavailable must stay unavailable until reported available)")
 			if t, ok := tm0.(*vTimer); ok && t != nil {
 				verifAssert(t.live() || v0.status[e] != recovering, "C14: repeated unavailable report stopped the recovery timer")
 			}
